@@ -21,12 +21,13 @@ struct sid_m { long sender, target; };
 PRELUDE = r'''
 #include <stdlib.h>
 #define VACUITY_PROBE() __CPROVER_assert(0, "vacuity-probe")
-long nondet_long(void); unsigned nondet_uint(void); _Bool nondet_bool(void);
+long nondet_long(void); unsigned nondet_uint(void); _Bool nondet_bool(void); unsigned long nondet_ulong(void);
 long g_str_seqreset = 4;
 /* ---- ghost ---- */
 long g_clock;                                          /* the time a fresh SendingTime gets */
 struct fld_m g_fpool[8]; int g_fn;
 char g_batch[64]; _Bool g_batch_empty, g_batch_valid;  /* the batch buffer's storage and whether it currently holds what callers saw */
+int g_c03; unsigned long g_body_bytes;            /* C03 harness copies: how many bytes the fields of this message render to */
 const char *g_encoded_at; unsigned long g_enclen; unsigned g_wire_seq; _Bool g_wire_possdup; long g_wire_orig; _Bool g_wire_has_orig; long g_wire_sending;
 _Bool g_conn_send_called; const char *g_conn_ptr; _Bool g_conn_ok;
 int g_put_msg_calls; unsigned g_put_msg_seq; const char *g_put_msg_ptr; _Bool g_put_msg_ptr_valid;
@@ -69,6 +70,11 @@ _Bool ses_modify_outbound(void *self, struct msg_m *m) { return 1; }
 unsigned long msg_encode(struct msg_m *m, char **store)
 {
   /* the wire image is determined by the header record now; it lives in the caller's output buffer */
+  /* K-enc: Message::encode(char**) needs HEADER_CALC_OFFSET + all field bytes + CheckSum field + terminator from *store */
+  unsigned long need = 32ul + g_body_bytes + 7ul + 1ul;
+  if (g_c03 == 1) __CPROVER_assert(need <= __CPROVER_OBJECT_SIZE(*store) - __CPROVER_POINTER_OFFSET(*store), "C03.send.output_buffer_holds_the_encoded_message");
+  if (g_c03 == 2) __CPROVER_assert(need <= __CPROVER_OBJECT_SIZE(*store) - __CPROVER_POINTER_OFFSET(*store), "C03.send.output_buffer_holds_a_message_of_at_most_the_maximum_length");
+  __CPROVER_assume(need <= __CPROVER_OBJECT_SIZE(*store) - __CPROVER_POINTER_OFFSET(*store));       /* what follows is checked for the runs in which the message fits */
   g_encoded_at = *store + 19; *store = (char *)g_encoded_at;
   g_wire_seq = (unsigned)m->hdr.v34; g_wire_possdup = m->hdr.has43 && m->hdr.v43; g_wire_has_orig = m->hdr.has122; g_wire_orig = m->hdr.v122; g_wire_sending = m->hdr.v52;
   g_enclen = nondet_uint() % 4096 + 20;
@@ -104,6 +110,7 @@ HARNESS_TMPL = r'''  struct FIX8_Session s; struct msg_m m; struct conn_m c; str
   __CPROVER_assume(!m.hdr.has43 || m.hdr.has34);                               /* PossDupFlag comes with the original number */                               /* a message that already carries a number was sent before, so it carries a SendingTime */
   g_clock = nondet_long(); g_fn = 0; g_batch_empty = nondet_bool(); g_batch_valid = 1; g_conn_send_called = 0; g_conn_ok = nondet_bool();
   g_put_msg_calls = 0; g_put_ctrl_calls = 0; g_encoded_at = 0;
+  g_body_bytes = nondet_ulong(); __CPROVER_assume(g_body_bytes <= 10000000ul); g_c03 = C03_MODE; if (C03_MODE == 2) __CPROVER_assume(g_body_bytes <= 8192ul - 8ul); if (C03_MODE == 0) __CPROVER_assume(g_body_bytes <= 4096ul);
   unsigned ns0 = s._next_send_seq, nr0 = s._next_receive_seq; long old_sending = m.hdr.v52; unsigned old34 = (unsigned)m.hdr.v34;
   _Bool batch_was_empty = g_batch_empty; _Bool retrans = m.hdr.has34, aa = s._loginParameters._always_seqnum_assign, had43 = m.hdr.has43;
   __exc = 0;
@@ -151,10 +158,11 @@ def _harness(prop):
                 out.append(rest)
         else:
             out.append(ln)
-    return 'void h_send_%s(void)\n{\n' % prop.lower() + '\n'.join(out) + '  VACUITY_PROBE();\n}\n'
+    mode = {'C03': '1', 'C03S': '2'}.get(prop, '0')
+    return ('void h_send_%s(void)\n{\n' % prop.lower() + '\n'.join(out) + '  VACUITY_PROBE();\n}\n').replace('C03_MODE', mode)
 
 
-POST = '\n'.join(_harness(p) for p in ('C16', 'C17', 'C18')) + r'''
+POST = '\n'.join(_harness(p) for p in ('C16', 'C17', 'C18', 'C03', 'C03S')) + r'''
 void h_update_persist(void)
 {
   struct FIX8_Session s; struct conn_m c; struct persist_m per;
@@ -249,6 +257,8 @@ UNIT = dict(
         dict(name='update_persist', harness='h_update_persist', properties=['C16'], solvers=['cadical', 'z3'], timeout=dict(quick=300, thorough=900), floor=4, level='proved-modular', object_bits=10),
         dict(name='recover', harness='h_recover', properties=['C16'], solvers=['cadical', 'z3'], timeout=dict(quick=300, thorough=900), floor=4, level='proved-modular', object_bits=10),
         dict(name='send_store', harness='h_send_c17', properties=['C17'], solvers=['cadical', 'z3'], timeout=dict(quick=600, thorough=1800), floor=6, level='proved-modular', object_bits=10),
+        dict(name='send_buffer', harness='h_send_c03', properties=['C03'], solvers=['cadical', 'z3'], timeout=dict(quick=600, thorough=1800), floor=1, level='proved-modular', object_bits=10),
+        dict(name='send_buffer_small', harness='h_send_c03s', properties=['C03'], solvers=['cadical', 'z3'], timeout=dict(quick=600, thorough=1800), floor=1, level='proved-modular', object_bits=10),
         dict(name='send_possdup', harness='h_send_c18', properties=['C18'], solvers=['cadical', 'z3'], timeout=dict(quick=600, thorough=1800), floor=1, level='proved-modular', object_bits=10),
     ],
     trusted_base=['ASSUMED: the message header is the ghost record of the six fields send_process touches and `*hdr << new F(v)` / have / get / remove act on it; Message::encode renders exactly that header '
